@@ -3496,6 +3496,22 @@ impl RaftNode {
                 .map_err(|e| {
                     ChainError::StorageError(format!("WAL snapshot install persist failed: {e}"))
                 })?;
+            // A snapshot from a leader that has compacted its log starts after index 1. What
+            // this node has on record before the snapshot's first entry was never checked
+            // against the snapshot and is dropped from memory below; record that as well,
+            // otherwise a restart brings those (possibly superseded) entries back in front of
+            // the snapshot's entries.
+            if let Some(first) = entries.first().filter(|e| e.index > 1) {
+                wal.lock()
+                    .append(&crate::raft_wal::RaftWalEntry::LogCompact {
+                        through_index: first.index - 1,
+                    })
+                    .map_err(|e| {
+                        ChainError::StorageError(format!(
+                            "WAL snapshot install persist failed: {e}"
+                        ))
+                    })?;
+            }
         }
 
         // Install the snapshot
